@@ -1,7 +1,7 @@
 (* Props/C06.v — Rollback restores exactly the state of the chosen snapshot.
    Statements only; proofs in Proofs/RollbackP.v.  [rollback w id] mirrors apply.rs::rollback
    (state-tree branch; snapshots in id order, [id] = ordinal). *)
-From AP Require Import Base.Str Gen.Tables Model.Deploy Proofs.DeployP Proofs.ConvergeP Proofs.RollbackP Proofs.HistoryP Proofs.WfDec.
+From AP Require Import Base.Str Gen.Tables Model.Deploy Proofs.DeployP Proofs.ConvergeP Proofs.RollbackP Proofs.HistoryP Proofs.WfDec Proofs.ReplanP.
 Open Scope N_scope.
 
 (* rollback records and unknown ids are rejected as targets without any write *)
@@ -73,6 +73,32 @@ Theorem C06_restore_histories : forall st confirmed adopt w0 roots DS pl wS h,
 Proof. exact rollback_inverts_history. Qed.
 Print Assumptions C06_restore_histories.
 
+(* "... so re-planning S's configuration shows no changes": under the same hypotheses the plan of S's
+   configuration in the world after the rollback is empty — every file of S holds S's bytes (also files no later
+   deployment touched but the user edited), nothing S does not want is recorded.  [C06_replan_any_records] is the
+   general form: it holds in ANY world whose files are those right after S, whatever snapshot records it carries. *)
+Theorem C06_replan_no_changes : forall st confirmed adopt w0 roots DS pl wS h,
+  deploy_cmd st confirmed adopt None w0 roots DS = (pl, (OApplied, wS)) ->
+  wfD roots DS -> wfM DS (managed_for_plan w0 roots None) -> covered roots DS ->
+  all_manifests roots (files wS) ->
+  hist_ok roots wS h ->
+  let w := run_hist roots wS h in
+  let id := length (snaps w0) in
+  (forall cur init, snaps w = init ++ [cur] ->
+     forall e e', In e (sn_managed cur) -> In e' (triples DS) -> mpath e = mpath e' -> mtp e = mtp e') ->
+  exists w', rollback w id = (RbOk, w') /\ plan (files w') DS (managed_for_plan w' roots None) = [].
+Proof. exact rollback_replan_empty. Qed.
+Print Assumptions C06_replan_no_changes.
+
+Theorem C06_replan_any_records : forall w roots D x,
+  wfD roots D -> wfM D (managed_for_plan w roots None) ->
+  let w' := apply_plan KDeploy w roots D (plan (files w) D (managed_for_plan w roots None)) in
+  all_manifests roots (files w') ->
+  (forall p, files x p = files w' p) ->
+  plan (files x) D (managed_for_plan x roots None) = [].
+Proof. intros w roots D x HD HM w' Hall Hx. exact (replan_empty_any_records w roots D HD HM Hall x Hx). Qed.
+Print Assumptions C06_replan_any_records.
+
 (* the FULL statement of the property — every path touched by any deployment after S has the
    content it had right after S — is refuted by the faithful model: a path can be touched after S
    without being recorded by S or by the head (it then falls under clause (4) above: unchanged).
@@ -131,7 +157,8 @@ Example C06_histories_nonvacuous :
   files (run_hist roots wS h) pa = Some (FBytes 7) /\ files (run_hist roots wS h) pb = None /\
   files (snd (rollback (run_hist roots wS h) 0)) pa = Some (FBytes 1) /\
   files (snd (rollback (run_hist roots wS h) 0)) pb = Some (FBytes 2) /\
-  files (snd (rollback (run_hist roots wS h) 0)) pc = None.
+  files (snd (rollback (run_hist roots wS h) 0)) pc = None /\
+  plan (files (snd (rollback (run_hist roots wS h) 0))) DS (managed_for_plan (snd (rollback (run_hist roots wS h) 0)) roots None) = [].
 Proof.
   cbv zeta. split; [vm_compute; reflexivity|].
   split; [apply wfD_b_sound; vm_compute; reflexivity|].
